@@ -38,7 +38,7 @@ from gen.models import ModelGen
 META = {
     "technique": "hand-written executable Lean model of the per-actuator computations of mj_fwdActuation (source of every control: d->ctrl or, for a delayed actuator, mj_readCtrl / mju_historyRead of its history buffer with zero-order hold / linear / cubic interpolation; control clamp and bad-control zeroing AFTER that read; act_dot; actearly via mj_nextActivation; SISO gain/bias force law, disabled groups, tendon total-force limit, forcerange clamp, sparse moment-transpose product, actuator-routed gravcomp and joint actfrcrange clamp) over the law-free number class MjNum, built on c2lean-generated kernels (mju_clip, mju_max, mju_isBad, the five muscle kernels; regenerated and validated bitwise each run); documented formulas transcribed independently from doc/ into Spec/Muscle.lean; Lean 4 proofs over the reals (case splits on the spline knots, field_simp/ring, linarith, list induction for the sparse product); bitwise stage-by-stage differential of the Float instance against act_dot / actuator_force / qfrc_actuator of the real mj_forward on generated models (joint, tendon, site and slider-crank transmissions; actuators with control delays / history buffers of 1..7 samples and all three interpolation orders, filled by stepping a random control sequence through the real mj_step; actearly; activation limits on every stateful kind with activations starting at / beyond the bounds, act after a real mj_step compared bitwise with the model's mj_nextActivation for every activation); independent property oracle in Python and on the real kernels",
     "text": "Proved over the reals for the model (all inputs): a limited control, clamped, lies in ctrlrange and every entry of the control vector the forces use is that clamped control or 0 when some control was bad; with control delays the clamped quantity is the SOURCE of the control (the history-buffer read for a delayed actuator, d->ctrl otherwise), hence a limited delayed control lies in ctrlrange for every buffer content (ctrlStageDelayed_entry, delayed_ctrl_in_range; without delays the stage reduces to the plain one, ctrlStageDelayed_nodelay; a zero-order-hold read returns a stored sample, historyRead_zoh_mem); with actearly the force input is mj_nextActivation, inside actrange when limited; mj_nextActivation keeps a limited activation in actrange (DC motors exempt, as coded); after the forcerange clamp the force lies in forcerange, after the joint clamp qfrc_actuator lies in actfrcrange, after the tendon rescaling the total force of the actuators on a tendon lies in its actfrcrange; fixed/affine gain with none/affine bias give p = a(w or u) + b0 + b1 l + b2 ldot; integrator and filter act_dot are the documented ones; the generated muscle kernels equal the documented scaled length/velocity, F0, F_V, the main bump of F_L (knots included) and the Millard activation dynamics (act in [0,1], hard switching); an actuator in a disabled group yields zero force through all later stages for every forcerange (the clamp loop skips disabled actuators); the sparse transpose product as coded equals the dense moment' * force. Tied to /repo on every run by translation (kernels) and the bitwise stage-by-stage differential against the real engine.",
-    "note": "Stated over the reals (rounding outside the proofs; the Float instance is compared bitwise). Not modelled (filtered out of the differential / not generated): the WRITING of history buffers (mju_historyInsert in mj_advance; the buffers the real mj_step produced are read back and fed to the model), servo setpoint wrapping on ball joints / rotational sites, PID / DC-motor / SO3 actuators, plugins, callbacks, sleeping. Transmission geometry (actuator_length, actuator_moment of joint / tendon / site / slider-crank transmissions; body transmissions are not generated) is oracle-only (finite differences), as planned in DESIGN.md. The muscle theorems need non-degenerate parameters (every mjMAX(mjMINVAL, .) guard inactive; stated as hypotheses). FINDINGS: (1) documentation vs code: XMLreference documents fpmax as the passive force at lmax and doc/_static/FLV.m gives F_P(lmax) = fpmax, the code (C, MJX and Warp alike) gives 1.5 fpmax; FLV.m adds a second bump 0.15*bump(L, lmin, (lmin+0.95)/2, 0.95) to F_L that the code does not have (theorems muscleBias_differs_from_doc, muscleGainLength_differs_from_FLVm; oracle key c27:muscle-passive-force-at-lmax-differs-from-doc); (2) FIXED in /repo (ea3125434): the forcerange clamp used to be applied to actuators of disabled groups too, so a disabled actuator whose forcerange excluded 0 output the nearest bound instead of zero; model and theorem disabled_group_zero_force now follow the fixed code (zero force for every forcerange), the oracle key c27:disabled-actuator-nonzero-force stays and a directed regression input (group 0 disabled, forcerange [1, 2]) is evaluated on every run; (3) KNOWN (c27:ctrl-not-clamped:implicit-derivative): with implicit / implicitfast integrators a control beyond ctrlrange does not act like the control at the limit once a step is taken, because mjd_actuator_vel uses the raw d->ctrl (mj_fwdActuation itself clamps correctly: the same sequences are bitwise equivalent under Euler; same root cause as c25:qderiv:actuator:ctrl-outside-ctrlrange).",
+    "note": "Stated over the reals (rounding outside the proofs; the Float instance is compared bitwise). Not modelled (filtered out of the differential / not generated): the WRITING of history buffers (mju_historyInsert in mj_advance; the buffers the real mj_step produced are read back and fed to the model), servo setpoint wrapping on ball joints / rotational sites, PID / DC-motor / SO3 actuators, plugins, callbacks, sleeping. Transmission geometry (actuator_length, actuator_moment of joint / tendon / site / slider-crank transmissions; body transmissions are not generated) is oracle-only (finite differences; for site transmissions, with or without a reference site and with structured gear vectors -- zero translational part, zero rotational part, single component -- every moment row is recomputed per actuator alone as site Jacobian' * gear wrench from cdof and compared with actuator_moment / actuator_velocity, keys c27:site-moment-not-jacobianT-gear, c27:site-velocity-not-moment-qvel), as planned in DESIGN.md. The muscle theorems need non-degenerate parameters (every mjMAX(mjMINVAL, .) guard inactive; stated as hypotheses). FINDINGS: (1) documentation vs code: XMLreference documents fpmax as the passive force at lmax and doc/_static/FLV.m gives F_P(lmax) = fpmax, the code (C, MJX and Warp alike) gives 1.5 fpmax; FLV.m adds a second bump 0.15*bump(L, lmin, (lmin+0.95)/2, 0.95) to F_L that the code does not have (theorems muscleBias_differs_from_doc, muscleGainLength_differs_from_FLVm; oracle key c27:muscle-passive-force-at-lmax-differs-from-doc); (2) FIXED in /repo (ea3125434): the forcerange clamp used to be applied to actuators of disabled groups too, so a disabled actuator whose forcerange excluded 0 output the nearest bound instead of zero; model and theorem disabled_group_zero_force now follow the fixed code (zero force for every forcerange), the oracle key c27:disabled-actuator-nonzero-force stays and a directed regression input (group 0 disabled, forcerange [1, 2]) is evaluated on every run; (3) KNOWN (c27:ctrl-not-clamped:implicit-derivative): with implicit / implicitfast integrators a control beyond ctrlrange does not act like the control at the limit once a step is taken, because mjd_actuator_vel uses the raw d->ctrl (mj_fwdActuation itself clamps correctly: the same sequences are bitwise equivalent under Euler; same root cause as c25:qderiv:actuator:ctrl-outside-ctrlrange).",
 }
 
 P = "MjProof.C27."
@@ -78,7 +78,7 @@ def make_model(ctx):
     rng = ctx.rng
     mdl = ModelGen(rng, PROFILE).make()
     lines, retarget = [], None
-    info = {"tendon_targets": 0, "site_targets": 0, "slidercrank_targets": 0, "range_excludes_zero": 0}
+    info = {"tendon_targets": 0, "site_targets": 0, "slidercrank_targets": 0, "range_excludes_zero": 0, "refsite_targets": 0, "gear_structure": {}}
     for l in mdl.lines:
         t = l.split()
         if t[0] == "actuator":
@@ -88,6 +88,8 @@ def make_model(ctx):
                 retarget = ("tendon", rng.choice(mdl.tendons)["name"])
             elif r < 0.5 and mdl.sites:
                 retarget = ("site", rng.choice(mdl.sites)["name"])
+                if len(mdl.sites) >= 2 and rng.random() < 0.25:
+                    retarget = retarget + (rng.choice([x for x in mdl.sites if x["name"] != retarget[1]])["name"],)
             elif r < 0.62 and len(mdl.sites) >= 2:
                 a, b = rng.sample(mdl.sites, 2)
                 retarget = ("slidercrank", a["name"], b["name"])
@@ -105,8 +107,27 @@ def make_model(ctx):
                 lines.append(l)
                 lines.append("set %s slidersite %s" % (t[1], retarget[2]))
                 l = "set %s cranklength %r" % (t[1], rng.choice((rng.uniform(2.0, 5.0), rng.uniform(2.0, 5.0), rng.uniform(0.05, 0.5))))
+            elif retarget[0] == "site" and len(retarget) == 3:
+                lines.append(l)
+                l = "set %s refsite %s" % (t[1], retarget[2])
+                info["refsite_targets"] += 1
         elif retarget and retarget[0] == "site" and len(t) >= 4 and t[0] == "set" and t[2] == "gear":
-            l = "set %s gear %s" % (t[1], " ".join(repr(rng.choice((0.0, rng.uniform(-2, 2)))) for _ in range(6)))
+            # structured wrench gears: zero translational part, zero rotational part, a single component, sparse, dense
+            gs = rng.choice(("rot-only", "rot-only", "trans-only", "single-rot", "single-trans", "sparse", "sparse", "dense"))
+            nz = lambda: rng.choice((1.0, -1.0, rng.uniform(-2, 2)))
+            if gs == "rot-only":
+                gv = [0.0, 0.0, 0.0] + [nz() for _ in range(3)]
+            elif gs == "trans-only":
+                gv = [nz() for _ in range(3)] + [0.0, 0.0, 0.0]
+            elif gs in ("single-rot", "single-trans"):
+                gv = [0.0] * 6
+                gv[rng.randrange(3) + (3 if gs == "single-rot" else 0)] = nz()
+            elif gs == "sparse":
+                gv = [rng.choice((0.0, rng.uniform(-2, 2))) for _ in range(6)]
+            else:
+                gv = [rng.uniform(-2, 2) for _ in range(6)]
+            info["gear_structure"][gs] = info["gear_structure"].get(gs, 0) + 1
+            l = "set %s gear %s" % (t[1], " ".join(repr(x) for x in gv))
         elif len(t) >= 4 and t[0] == "set" and t[2] == "group":
             continue      # the generator's own group line: replaced by ours above
         elif len(t) >= 5 and t[0] == "set" and t[2] == "forcerange" and rng.random() < 0.25:
@@ -217,9 +238,11 @@ MODEL_FIELDS = ("actuator_gaintype", "actuator_biastype", "actuator_dyntype", "a
                 "actuator_outadr", "actuator_outnum", "actuator_trntype", "actuator_trnid", "actuator_lengthrange", "actuator_acc0",
                 "actuator_actearly", "actuator_delay", "actuator_history", "actuator_historyadr", "actuator_plugin", "tendon_actfrclimited", "tendon_actfrcrange",
                 "jnt_actfrclimited", "jnt_actfrcrange", "jnt_actgravcomp", "jnt_dofadr", "jnt_qposadr", "jnt_type", "dof_jntid",
-                "body_gravcomp", "opt.disableactuator", "opt.disableflags", "opt.integrator", "opt.enableflags", "opt.gravity", "opt.timestep")
+                "body_gravcomp", "actuator_gear", "site_bodyid", "body_rootid", "body_weldid", "body_dofadr", "body_dofnum", "dof_parentid",
+                "opt.disableactuator", "opt.disableflags", "opt.integrator", "opt.enableflags", "opt.gravity", "opt.timestep")
 DATA_FIELDS = ("ctrl", "act", "act_dot", "actuator_force", "actuator_length", "actuator_velocity", "actuator_moment", "moment_rownnz",
-               "moment_rowadr", "moment_colind", "qfrc_actuator", "qfrc_gravcomp", "qpos", "history", "time")
+               "moment_rowadr", "moment_colind", "qfrc_actuator", "qfrc_gravcomp", "qpos", "history", "time",
+               "qvel", "cdof", "subtree_com", "site_xpos", "site_xmat")
 WARN_BAD = [E(w) for w in ("mjWARN_BADQPOS", "mjWARN_BADQVEL", "mjWARN_BADQACC", "mjWARN_BADCTRL")]
 INT_RK4 = E("mjINT_RK4")
 
@@ -251,6 +274,9 @@ class Snap:
         self.qfrc, self.qgc, self.qpos = g("qfrc_actuator"), g("qfrc_gravcomp"), g("qpos")
         self.ahist, self.ahistadr, self.history, self.time = gi("actuator_history"), gi("actuator_historyadr"), g("history"), g("time")[0]
         self.timestep, self.integrator = g("opt.timestep")[0], gi("opt.integrator")[0]
+        self.gear, self.site_bodyid, self.body_rootid, self.body_weldid = g("actuator_gear"), gi("site_bodyid"), gi("body_rootid"), gi("body_weldid")
+        self.body_dofadr, self.body_dofnum, self.dof_parentid = gi("body_dofadr"), gi("body_dofnum"), gi("dof_parentid")
+        self.qvel, self.cdof, self.subtree_com, self.site_xpos, self.site_xmat = g("qvel"), g("cdof"), g("subtree_com"), g("site_xpos"), g("site_xmat")
         self.nact, self.nv, self.nu, self.njnt = len(self.gaintype), len(self.qfrc), len(self.ctrl), len(self.jtype)
 
     def bits(self, f):
@@ -786,10 +812,85 @@ def oracle(s, fail, rp, stats, extra):
             return
 
 
+def py_site_jac(s, site):
+    """translational / rotational Jacobian (3 x nv each) of a site from cdof and the dof ancestor chain (documented mj_jac construction)"""
+    nv, body = s.nv, s.site_bodyid[site]
+    jp, jr = [[0.0] * nv for _ in range(3)], [[0.0] * nv for _ in range(3)]
+    root = s.body_rootid[body]
+    off = [s.site_xpos[3 * site + k] - s.subtree_com[3 * root + k] for k in range(3)]
+    b = s.body_weldid[body]
+    chain = []
+    if s.body_dofnum[b] > 0:
+        i = s.body_dofadr[b] + s.body_dofnum[b] - 1
+        while i >= 0:
+            w, v = s.cdof[6 * i:6 * i + 3], s.cdof[6 * i + 3:6 * i + 6]
+            cr = (w[1] * off[2] - w[2] * off[1], w[2] * off[0] - w[0] * off[2], w[0] * off[1] - w[1] * off[0])
+            for k in range(3):
+                jr[k][i], jp[k][i] = w[k], v[k] + cr[k]
+            chain.append(i)
+            i = s.dof_parentid[i]
+    return jp, jr, chain
+
+
+def py_site_moment(s, i):
+    """analytic moment row (dense, nv) of site transmission i, computed for this actuator alone: Jacobian' * (frame * gear); with a
+    reference site the Jacobian is the difference of the two sites' Jacobians without their common ancestral dofs, the frame is the refsite's"""
+    site, ref = s.trnid[2 * i], s.trnid[2 * i + 1]
+    g = s.gear[6 * i:6 * i + 6]
+    jp, jr, chain = py_site_jac(s, site)
+    fr = site
+    if ref >= 0:
+        jp1, jr1, chain1 = py_site_jac(s, ref)
+        common = set(chain) & set(chain1)
+        for k in range(3):
+            for j in range(s.nv):
+                jp[k][j], jr[k][j] = (0.0, 0.0) if j in common else (jp[k][j] - jp1[k][j], jr[k][j] - jr1[k][j])
+        fr = ref
+    R = s.site_xmat[9 * fr:9 * fr + 9]
+    wt = [sum(R[3 * k + c] * g[c] for c in range(3)) for k in range(3)]
+    wr = [sum(R[3 * k + c] * g[3 + c] for c in range(3)) for k in range(3)]
+    return [sum(jp[k][j] * wt[k] + jr[k][j] * wr[k] for k in range(3)) for j in range(s.nv)]
+
+
+def oracle_site_moment(s, fail, rp, stats):
+    """O12 every site transmission row, independently per actuator: actuator_moment = site Jacobian' * gear wrench, actuator_velocity =
+    that row * qvel (whatever the other actuators of the model are and in whatever order they are evaluated)"""
+    if not all(math.isfinite(x) for x in s.cdof + s.qvel + s.site_xpos + s.site_xmat + s.subtree_com + s.moment):
+        return
+    for i in range(s.nact):
+        if s.trntype[i] != TRN_SITE or s.outnum[i] != 1 or s.plugin[i] >= 0:
+            continue
+        want = py_site_moment(s, i)
+        got = [0.0] * s.nv
+        r = s.outadr[i]
+        for a in range(s.rowadr[r], s.rowadr[r] + s.rownnz[r]):
+            got[s.colind[a]] += s.moment[a]
+        g = s.gear[6 * i:6 * i + 6]
+        cls = ("refsite:" if s.trnid[2 * i + 1] >= 0 else "") + ("zero" if not any(g) else "rot-only" if not any(g[:3]) else "trans-only" if not any(g[3:]) else "mixed")
+        stats["site_moment_checked"][cls] = stats["site_moment_checked"].get(cls, 0) + 1
+        stats["site_moment_checked_after"][str(s.trntype[i - 1]) if i else "first"] = stats["site_moment_checked_after"].get(str(s.trntype[i - 1]) if i else "first", 0) + 1
+        sc = 1 + max(abs(x) for x in want + got)
+        dev = max(abs(a - b) for a, b in zip(want, got)) / sc
+        stats["max_dev_site_moment"] = max(stats["max_dev_site_moment"], dev)
+        if dev > 1e-9:
+            k = max(range(s.nv), key=lambda j: abs(want[j] - got[j]))
+            fail("c27:site-moment-not-jacobianT-gear", "actuator %d (site transmission%s, gear %r, evaluated after transmission type %s): actuator_moment[dof %d] = %r "
+                 "but site Jacobian' * gear wrench = %r" % (i, " with refsite" if s.trnid[2 * i + 1] >= 0 else "", g, s.trntype[i - 1] if i else "none", k, got[k], want[k]),
+                 dict(rp, actuator=i, dof=k, then="`num 0 actuator_moment`, `num 0 moment_colind`, `num 0 moment_rowadr`"))
+            return
+        terms = [want[j] * s.qvel[j] for j in range(s.nv)]
+        vsc = 1 + sum(abs(x) for x in terms)
+        if abs(s.velocity[r] - sum(terms)) > 1e-9 * vsc:
+            fail("c27:site-velocity-not-moment-qvel", "actuator %d (site transmission): actuator_velocity = %r but (site Jacobian' * gear wrench) . qvel = %r"
+                 % (i, s.velocity[r], sum(terms)), dict(rp, actuator=i, then="`num 0 actuator_velocity`"))
+            return
+
+
 def run_models(ctx, exe, drv, nmodels):
     stats = {"models": 0, "models_compared": 0, "models_outside_fragment": 0, "bitwise_cases": 0, "bitwise_bad": 0, "forcerange_checked": 0,
              "disabled_checked": 0, "affine_law_checked": 0, "jointrange_checked": 0, "qfrc_checked": 0, "tendon_total_checked": 0,
              "clamp_equivalence_checked": 0, "actrange_checked": 0, "moment_fd_checked": 0, "tendon_scaling_models": 0,
+             "site_moment_checked": {}, "site_moment_checked_after": {}, "max_dev_site_moment": 0.0, "refsite_targets": 0, "gear_structure": {},
              "max_dev_force": 0.0, "max_dev_qfrc": 0.0, "max_dev_moment_fd": 0.0, "gain_types": {}, "bias_types": {}, "dyn_types": {},
              "trn_types": {}, "clamp_disabled_models": 0, "range_excludes_zero": 0,
              "delayed_reads": 0, "actearly_inputs": 0, "effective_ctrl_checked": 0, "effective_ctrl_checked_delayed": 0,
@@ -867,6 +968,9 @@ def run_models(ctx, exe, drv, nmodels):
         stats["models"] += 1
         stats["clamp_disabled_models"] += 1 if s.clamp_disabled() else 0
         stats["range_excludes_zero"] += mdl.info["range_excludes_zero"]
+        stats["refsite_targets"] += mdl.info["refsite_targets"]
+        for k_, v_ in mdl.info["gear_structure"].items():
+            stats["gear_structure"][k_] = stats["gear_structure"].get(k_, 0) + v_
         stats["models_with_history"] += 1 if has_hist else 0
         if has_hist:
             stats["preroll_steps"][str(len(pre))] = stats["preroll_steps"].get(str(len(pre)), 0) + 1
@@ -895,6 +999,15 @@ def run_models(ctx, exe, drv, nmodels):
                 stats["limited_activations"] += 1
                 d_ = DYN.get(s.dyntype[i], str(s.dyntype[i]))
                 stats["dyn_limited"][d_] = stats["dyn_limited"].get(d_, 0) + 1
+        # structure of the sparse moment matrix: every row inside the allocated arrays, column indices are dofs (a transmission row
+        # with more non-zeros than the compile-time sparsity overruns its neighbours)
+        nJ = min(len(s.moment), len(s.colind))
+        badrow = [r for r in range(len(s.rownnz)) if not (0 <= s.rowadr[r] and 0 <= s.rownnz[r] and s.rowadr[r] + s.rownnz[r] <= nJ
+                                                          and all(0 <= s.colind[a] < s.nv for a in range(s.rowadr[r], s.rowadr[r] + s.rownnz[r])))]
+        if len(s.rownnz) != len(s.rowadr) or badrow:
+            fail("c27:moment-row-outside-sparse-structure", "actuator_moment row(s) %r: moment_rowadr %r + moment_rownnz %r leave the %d allocated entries or "
+                 "moment_colind is not a dof index (nv = %d)" % (badrow[:4], s.rowadr, s.rownnz, nJ, s.nv), dict(rp, then="`num 0 moment_rownnz`, `num 0 moment_rowadr`, `num 0 moment_colind`"))
+            continue
         lean_differential(ctx, drv, s, stats, mism, mi, rp)
         # ---- follow-up engine runs for the oracle
         extra = {}
@@ -976,6 +1089,7 @@ def run_models(ctx, exe, drv, nmodels):
             stats["nonfinite_models_skipped_by_oracle"] = stats.get("nonfinite_models_skipped_by_oracle", 0) + 1
             continue
         oracle(s, fail, rp, stats, extra)
+        oracle_site_moment(s, fail, rp, stats)
     stats["failure_keys"] = failures
     stats["lean_driver_lines"] = drv.lines
     drv.close()
@@ -1072,7 +1186,8 @@ def run(ctx):
                 "are not multiples of the timestep, history without delay; actearly) at random states with controls beyond, at and inside the limits, "
                 "after a random control sequence of 0..12 mj_step calls when the model has history buffers; a case is one (model, quantity) bit "
                 "comparison; oracle per model: ranges, dense moment' * force, clamp equivalence (sequence-wide), used control inside ctrlrange, "
-                "act_dot and affine law per actuator, disabled groups, moment finite differences")
+                "act_dot and affine law per actuator, disabled groups, moment finite differences, site transmission rows = site Jacobian' * gear "
+                "wrench per actuator (structured gears, refsite, mixed transmission types in sequence)")
     import time
     T, t0 = {}, [time.time()]
 
@@ -1098,7 +1213,8 @@ def run(ctx):
         ctx.extra["disabled_regression_input"] = disabled_regression(ctx, exe)
         lap("engine_differential_and_oracle")
         ctx.extra["max_float_deviation"] = {"force_rel": stats["max_dev_force"], "qfrc_rel": stats["max_dev_qfrc"],
-                                            "moment_fd_rel": stats["max_dev_moment_fd"], "tolerances": {"law": RTOL, "moment_fd": 1e-5}}
+                                            "moment_fd_rel": stats["max_dev_moment_fd"], "site_moment_rel": stats["max_dev_site_moment"],
+                                            "tolerances": {"law": RTOL, "moment_fd": 1e-5, "site_moment": 1e-9}}
     hsrc = os.path.join(common.CACHE, "gen", "kernels_harness.c")
     khar = ctx.harness(os.path.relpath(hsrc, common.VERIF), "kernels_harness") if os.path.exists(hsrc) else None
     if khar:
